@@ -605,6 +605,49 @@ def grids_for(rng, dur):
     return {'off': off, 'on': on, 'end': on[-3:] + [dur] if rng.random() < 0.5 else [F(0), dur]}
 
 
+def gen_subset_targets(rng, n):
+    """get_subset_for_channels across the parts of multi-channel waveforms (requested channels cut through parts that
+    define more channels than requested), also below sequence / repetition / functor / reversal / arithmetic"""
+    out = []
+    for _ in range(n):
+        dur = rng.choice([2, 4, 4, 8]) * Q4
+        chans = list(range(5))
+        rng.shuffle(chans)
+        k = rng.choice([3, 4, 4, 5])
+        chans = chans[:k]
+        cut = rng.randint(1, k - 1)
+        groups = [chans[:cut], chans[cut:]]
+        if len(groups[1]) > 2:
+            groups = [groups[0], groups[1][:1], groups[1][1:]]
+
+        def multi(d):
+            return ['multi', rng.random() < 0.5, [gen_wf(rng, rng.choice([0, 1, 2]), g, d, rng.choice([0.0, 0.6])) for g in groups]]
+        shape = rng.choice(['multi', 'multi', 'seq', 'rep', 'functor', 'rev', 'arith', 'nested'])
+        if shape == 'multi':
+            inner = multi(dur)
+        elif shape == 'seq':
+            parts = split_dur(rng, dur, 2)
+            inner = ['seq', rng.random() < 0.5, [multi(p) for p in parts]]
+        elif shape == 'rep':
+            inner = ['rep', rng.random() < 0.5, multi(dur / 2), 2]
+        elif shape == 'functor':
+            inner = ['functor', rng.random() < 0.5, multi(dur), [[c, rng.choice(['neg', 'abs', 'pos'])] for c in chans]]
+        elif shape == 'rev':
+            inner = [rng.choice(['rev', 'reversed', 'fromrev']), multi(dur)]
+        elif shape == 'arith':
+            inner = ['arith', rng.random() < 0.5, multi(dur), rng.choice('+-'), multi(dur)]
+        else:
+            inner = ['multi', True, [multi(dur), ['const', fs(dur), '1', [c for c in range(5) if c not in chans][0]]]] \
+                if k < 5 else multi(dur)
+        want = sorted({rng.choice(g) for g in groups} | ({rng.choice(chans)} if rng.random() < 0.5 else set()))
+        r = ['getsubset', inner, want]
+        if rng.random() < 0.3:
+            r = ['getsubset', r, want[:max(1, len(want) - 1)]]
+            want = want[:max(1, len(want) - 1)]
+        out.append((r, dur, want))
+    return out
+
+
 def malformed_recipes(rng):
     c = lambda d, v, ch: ['const', fs(d), fs(v), ch]   # noqa
     t = lambda ch, ents, val=True: ['table', val, ch, [[fs(a), fs(b), i] for a, b, i in ents]]   # noqa
@@ -732,6 +775,8 @@ def gen_cases(rng, tier, ctx):
             r = ['seq', True, [r, ['table', True, 1, gen_table_entries(rng, dur, 'prefix')]]]
             dur = 2 * dur
         add_sample(r, dur, [1])
+    for r, dur, chans in gen_subset_targets(rng, 40 if tier == 'quick' else 500):
+        add_sample(r, dur, chans)
     for r in exhaustive_small(tier):
         dur = F(1)
         add_sample(r, dur, [1])
